@@ -41,8 +41,6 @@ func VerifLemma_C13A_ValidatePrefixPath() {
 		verifAssert(len(p) > 0 && p[0] != '/', "accepted prefix is non-empty and relative")
 		verifAssert(refCNoDotDot(p), "accepted prefix has no .. component")
 		verifAssert(normalpath.Normalize(p) == p, "accepted prefix is normalized")
-	} else {
-		verifAssert(p == "", "no prefix is returned with an error")
 	}
 	q, qerr := normalpath.NormalizeAndValidate(s)
 	verifAssert((err == nil) == (qerr == nil), "ValidatePrefix accepts exactly what NormalizeAndValidate accepts")
@@ -54,7 +52,5 @@ func VerifLemma_C13A_ValidatePrefixPath() {
 	if err2 == nil {
 		verifCover("path accepted")
 		verifAssert(p2 == q && p2 != "." && refCNoDotDot(p2) && p2[0] != '/', "ValidatePath returns the normalized, relative, non-root path without .. components")
-	} else {
-		verifAssert(p2 == "", "no path is returned with an error")
 	}
 }
